@@ -24,6 +24,9 @@ func init() {
 
 func runC16(c *eng.Ctx) {
 	p := c.P
+	// (shared with C05) a failed append leaves nothing behind that a later conditional publish could land behind
+	c.Rule("R05.1", "K2")
+	ruleLogThenIndex(c)
 	// ---- R16.1
 	c.Rule("R16.1", "K1")
 	if fn := c.Fn(cl + "newMessageSetFromProto"); fn != nil {
